@@ -593,7 +593,7 @@ func (p *c14probe) check(ref *c14ref, t *Topo, rng *rand.Rand, full bool) []c14m
 }
 
 func runC14(c *Check, rng *rand.Rand) {
-	c.Rule = "random histories of CLUSTER NODES descriptions (ranges split/moved/single-slot/unclaimed, masters added/removed/failed, failover, replicas added (also loading / link down), removed, re-parented, flagged fail/handshake/noaddr/disconnected, node ids changed, migration markers, 7-column lines, @cport on/off, texts padded with forgotten failed nodes up to exactly 163840 bytes) interleaved with unusable replies (error, nil, +OK, empty, oversized, garbage, two nodes), starting also with an unusable reply; after each valid description routing probes (every range boundary +-1, random slots; writes and reads) are compared with a reference interpreter, polled every 250 ms, verdict at 10 s; after each unusable reply the previous map must still be in force; one lane (thorough: a third of them) runs with delay hooks armed inside the refresh goroutine and the ticker so that the table rebuild overlaps the refresh; distinct = (transition kind, preceding unusable kind)"
+	c.Rule = "random histories of CLUSTER NODES descriptions (ranges split/moved/single-slot/unclaimed, masters added/removed/failed, failover, replicas added (also loading / link down), removed, re-parented, flagged fail/handshake/noaddr/disconnected, node ids changed, migration markers, 7-column lines, @cport on/off, texts padded with forgotten failed nodes up to exactly 163840 bytes) interleaved with unusable replies (error, nil, +OK, empty, oversized, garbage, two nodes), starting also with an unusable reply; after each valid description routing probes (every range boundary +-1, random slots; writes and reads) are compared with a reference interpreter, polled every 250 ms, verdict at 10 s; after each unusable reply the previous map must still be in force; one lane in four runs with msg_max_length_limit = 600 (smaller than any description); one lane (thorough: a third of them) runs with delay hooks armed inside the refresh goroutine and the ticker so that the table rebuild overlaps the refresh; distinct = (transition kind, preceding unusable kind)"
 	c.Assumptions = []string{
 		"'within a few seconds' is restated as <= 10 s after the fake nodes start serving the description (nominal <= ~2 s: 1 s probe tick + 1 s table tick)",
 		"ambiguities resolved permissively: nodes flagged 'fail?' and known replicas that start loading later may be used or not; slots of such masters are not probed",
@@ -647,6 +647,11 @@ func c14lane(c *Check, rng *rand.Rand, lane, steps int, hooks, mode string) {
 		envv = []string{"RCPROXY_VERIF_POINTS=" + hooks, "RCPROXY_VERIF_HITS=" + hitsFile, fmt.Sprintf("RCPROXY_VERIF_SEED=%d", c.Seed+int64(lane))}
 	}
 	opt := EnvOpt{Masters: 4, Replicas: 1, Extra: 8, Cfg: ProxyCfg{Env: envv, LogLevel: os.Getenv("C14_LOGLEVEL")}, Mode: mode, NoWait: firstUnusable}
+	if lane%4 == 2 {
+		// a request / reply size limit far below the size of a CLUSTER NODES text: the
+		// limit is about client traffic, the topology probe has its own bound
+		opt.Cfg.MsgMax = 600
+	}
 	var gen *c14gen
 	firstKind := c14unusableKinds[lane%len(c14unusableKinds)]
 	opt.Topo = func(cl *Cluster) *Topo {
